@@ -75,10 +75,14 @@ def alphabet(world, name, tier="thorough"):
 
 
 def graph_canon(w):
-    """tasks (order, expressions) and the four indices with their insertion order and counts; container contents are left
-    out because load()/copy_expr_from register definitions without running them"""
+    """the set of tasks (target, expression) and the four indices as multisets (keys with non-empty entries and their counts).
+    Insertion ORDER is deliberately not compared: the order in which load()/copy_expr_from register definitions is not part of the
+    property.  Container contents are left out because load()/copy_expr_from register definitions without running them."""
     m = w.m
-    return ([(hash(k), type(t).__name__, hash(getattr(t, "expr", None))) for k, t in m.tasks.items()], mgr.index_fingerprint(m), m._tree_frozen)
+    idx = []
+    for d in (m.rdeps, m.rtasks, m.deptasks, m.tartasks):
+        idx.append(sorted((str(k), sorted((str(i), c) for i, c in v.items())) for k, v in d.items() if len(v)))
+    return (sorted((str(k), type(t).__name__, str(getattr(t, "expr", None))) for k, t in m.tasks.items()), idx, m._tree_frozen)
 
 
 class Sub:
